@@ -65,7 +65,8 @@ def build(sk, d, V):
                 .where(t.c == [V[1], V[2]]).where(t.d.between(V[3], V[4]))), 5
     if sk == 8:  # select term re-rendered by GROUP BY where aliases are not allowed (SQL Server / Oracle)
         term = (t.a + V[1]).as_("x")
-        return Q.from_(t).select(term, fn.Max(t.b)).groupby(term).having(fn.Max(t.b) == V[0]), 2
+        other = (t.c + V[2]).as_("y")  # aliased, holds a value, NOT grouped
+        return Q.from_(t).select(other, term, fn.Max(t.b)).groupby(t.d, term).having(fn.Max(t.b) == V[0]), 3
     if sk == 9:  # INSERT ... SELECT with a CTE
         cte = QS[0].from_(u).select(u.k).where(u.w == V[0])
         from pypika_tortoise import AliasedQuery
